@@ -109,6 +109,8 @@ class Gen:
         self.feats = feats or {}
         self.dead = []           # names whose declaring construct has ended: (name, key)
         self.hide = set()        # names not to be used right now (no self reference in an initialiser)
+        self.loop_vars = []      # (name, type) of the enclosing foreach statements
+        self.in_mc = 0           # inside a multiclass body: defs are prototypes, not referable by name
 
     # ------------------------------------------------------------------ emission
     def w(self, s):
@@ -353,17 +355,19 @@ class Gen:
             if i >= named_from:
                 self.w(an + " = ")
             vlo = self.here()
-            self.value(at, depth + 1)
+            self.value(at, depth + 1, top_arg=True)
             info["spans"].append((lo, self.here(), vlo, at))
         info["close"] = self.here()
         self.w(">")
         if owner is not None:
             owner["args"] = info
 
-    def value(self, t, depth=0):
+    def value(self, t, depth=0, top_arg=False):
         """emit a value of type t (well typed, every identifier in scope); records uses"""
         r = self.r
         forms = []
+        if depth < 3 and not top_arg and t[0] in ("int", "string", "bit"):
+            forms += ["cond"]
         ids = self.idents_of(t)
         if ids:
             forms += ["ident"] * 4
@@ -391,6 +395,17 @@ class Gen:
             self.w(")")
         elif f == "op":
             self.operator(t, depth)
+        elif f == "cond":
+            self.feat("!cond")
+            self.w("!cond(")
+            for i in range(r.choice([1, 2])):
+                self.value(BIT, depth + 1)
+                self.w(": ")
+                self.value(t, depth + 1)
+                self.w(", ")
+            self.w("true: ")
+            self.value(t, depth + 1)
+            self.w(")")
         else:
             self.literal(t, depth)
 
@@ -852,12 +867,12 @@ class Gen:
         self.w("def ")
         rec = Cls(None, None)
         rec.complete = True
-        if r.random() < 0.85 or forced_parent:
+        pasteable = all(t in (INT, STRING) for _n, t in self.loop_vars)
+        if (r.random() < 0.85 or forced_parent) and pasteable:
             name = self.fresh("D")
             key = self.decl(name, "def")
-            if name_suffix is not None:
-                self.w("#")
-                self.w(name_suffix)          # not visited by the indexer (DESIGN Appendix D)
+            for vn in self.paste_suffix():
+                self.w("#" + vn)             # not visited by the indexer (DESIGN Appendix D)
                 self.feat("def-paste-name")
         else:
             name, key = None, None
@@ -875,11 +890,19 @@ class Gen:
             self.parent_list(rec, "def")
         self.body(rec, False)
         self.pop()
-        if name:
+        if name and not self.in_mc:
             sym = Sym(key, ("defrec", name, frozenset(rec.ancestors)), "def")
             self.defs[name] = (sym, rec)
             self.globals.add(name)
         return name
+
+    def paste_suffix(self):
+        """loop variables a def / defm name is pasted with (each visible name once)"""
+        out = []
+        for vn, _t in self.loop_vars:
+            if vn not in out:
+                out.append(vn)
+        return out
 
     def multiclass_stmt(self):
         r = self.r
@@ -901,10 +924,12 @@ class Gen:
             self.args(self.mcs[pn].targs, 1, owner=site)
         self.w(" {")
         self.nl()
+        self.in_mc += 1
         for _ in range(r.choice([1, 1, 2, 3])):
             self.w("  ")
             self.mc_statement(0)
             self.nl()
+        self.in_mc -= 1
         self.w("}")
         self.pop()
         self.mcs[name] = m
@@ -932,9 +957,11 @@ class Gen:
         r = self.r
         pn = r.choice(sorted(self.mcs))
         self.w("defm ")
-        if r.random() < 0.8:
+        if r.random() < 0.8 and all(t in (INT, STRING) for _n, t in self.loop_vars):
             name = self.fresh("DM")
             self.decl(name, "defm")
+            for vn in self.paste_suffix():
+                self.w("#" + vn)
             self.globals.add(name)
         else:
             self.feat("anonymous-defm")
@@ -983,20 +1010,24 @@ class Gen:
             name = self.local_name("i", et)
             key = self.decl(name, "foreach")
             self.w(" = {" + r.choice(["0-2", "1, 2", "0...1, 4"]) + "}")
+            self.feat("foreach-braces")
         else:
             et = r.choice([INT, INT, STRING])
             name = self.local_name("i", et)
             key = self.decl(name, "foreach")
             self.w(" = [")
-            for i in range(r.choice([1, 2, 3])):
+            pool = ["0", "1", "2", "7"] if et == INT else ['"a"', '"b"', '"c d"']
+            for i, lit in enumerate(r.sample(pool, r.choice([1, 2, 3]))):
                 if i:
                     self.w(", ")
-                self.value_exact(et, 2)
+                self.w(lit)
             self.w("]")
         self.w(" in ")
         self.push()
         self.bind(name, Sym(key, et, "foreach"))
+        self.loop_vars.append((name, et))
         self.block(stmt)
+        self.loop_vars.pop()
         self.pop()
         self.feat("foreach")
 
@@ -1057,10 +1088,12 @@ class Gen:
         self.use(c, self.classes[c].key, site="class-type")
         self.w("> ")
         name = self.fresh("S")
-        self.decl(name, "defset")
+        key = self.decl(name, "defset")
         self.globals.add(name)
         self.w(" = ")
         self.block(lambda: self.def_stmt(forced_parent=c), n=self.r.choice([1, 2]))
+        # the defset name is a global value of the declared list type from here on
+        self.frames[0][name] = Sym(key, LIST(CLASS(c)), "defset")
         self.feat("defset")
 
     def dump_stmt(self):
